@@ -39,9 +39,9 @@ def kcodes(tier):
     """stream index * 100 + number of chosen cut points."""
     if tier == "thorough":
         k = {1: 16, 2: 16, 3: 16, 4: 14, 5: 12, 6: 12, 7: 12, 8: 12, 9: 12,
-             10: 10, 11: 10, 12: 10, 13: 10, 14: 8, 15: 8, 16: 8, 17: 8, 18: 8}
+             10: 10, 11: 10, 12: 10, 13: 10, 14: 8, 15: 8, 16: 8, 17: 8, 18: 8, 19: 8}
     else:
-        k = {1: 10, 2: 10, 3: 10, 4: 10, 5: 6, 6: 6, 7: 6, 8: 6, 9: 6}
+        k = {1: 10, 2: 10, 3: 10, 4: 10, 5: 6, 6: 6, 7: 6, 8: 6, 9: 6, 19: 5}
     return k
 
 
@@ -59,7 +59,7 @@ def write_cfg(name, spec, k, rot, cap, variant, invariants, prop=None):
 def model_check(tier, k):
     """Use (A).  The theorem on every delivery schedule; the single-Read decoder must break it."""
     cap = 96 if tier == "thorough" else 24
-    allk = {i: 0 for i in (range(1, 19) if tier == "thorough" else k)}
+    allk = {i: 0 for i in (range(1, 20) if tier == "thorough" else k)}
     cfg = write_cfg("StreamGen.contract.cfg", "ContractSpec", allk, 0, cap, "full",
                     ["ReaderInv", "ChunkingTheorem", "PrefixInv", "WholeInv"], "Termination")
     res = vlib.run_tlc("StreamGen", cfg, workers=min(vlib.NCPU, 8), heap="2g", coverage=True, timeout=900)
